@@ -1,11 +1,113 @@
 (* C16 — numeric literals are read and printed exactly.  Theorems only; proofs are in Num/*.v *)
 From Coq Require Import ZArith NArith QArith List Ascii String Bool.
-From OsmtV.Num Require Import Chars Regex Gen_RealString Gen_LexNum LitModel RatPrint.
+From OsmtV.Num Require Import Chars Regex RegexProofs Gen_RealString Gen_LexNum LitModel LitProofs LexProofs RatPrint RatPrintProofs.
 Import ListNotations.
 Definition S (s : string) : str := list_ascii_of_string s.
 
+(* An accepted decimal denotes its exact value: any number of digits, any leading and trailing zeros,
+   either sign.  (sign)(ip)[.(fp)] with ip a non-empty digit string and fp a digit string; the result
+   is the canonical rational equal to  +-(ip.fp). *)
+Theorem decimal_value : forall (neg : bool) (ip fp : str),
+  ip <> [] -> all_digits ip = true -> all_digits fp = true ->
+  exists q, string_to_rational (sign_str neg ++ ip ++ dot_part fp) = StrVal q /\
+            (q == signed neg (dec_value ip fp))%Q /\ Qred q = q.
+Proof. exact decimal_value_shape. Qed.
+Print Assumptions decimal_value.
+
+(* Fractions n/d.  Full statement (FALSE on the faithful model): for all digit strings n, d with d <> 0
+   the value is n/d.  Provable part: numerator and denominator without leading zero. *)
+Theorem fraction_value_partial : forall (neg : bool) (c : ascii) (n' : str) (c2 : ascii) (d' : str),
+  is_posdig c = true -> all_digits n' = true -> is_posdig c2 = true -> all_digits d' = true ->
+  exists q, string_to_rational (sign_str neg ++ (c :: n') ++ slash :: c2 :: d') = StrVal q /\
+            (q == signed neg (frac_value (c :: n') (c2 :: d')))%Q /\ Qred q = q.
+Proof. exact fraction_value_nolead. Qed.
+Print Assumptions fraction_value_partial.
+
+(* ... and the rest is false for the variant that passes base 0 to mpq_set_str (the unchanged tree): a
+   leading zero makes GMP read octal, an octal-invalid digit makes the parse fail silently (value 0); a
+   zero denominator crashes in mpq_canonicalize (either variant). *)
 Theorem fraction_value_refuted :
-  string_to_rational (S "010/3") = StrVal (8 # 3) /\ string_to_rational (S "09/3") = StrVal 0 /\
-  string_to_rational (S "1/0") = StrCrash.
+  string_to_rational_b 0 (S "010/3") = StrVal (8 # 3) /\ string_to_rational_b 0 (S "09/3") = StrVal 0 /\
+  string_to_rational_b 0 (S "1/0") = StrCrash /\ string_to_rational_b 10 (S "1/0") = StrCrash.
 Proof. repeat split; vm_compute; reflexivity. Qed.
 Print Assumptions fraction_value_refuted.
+
+(* The repaired variant (base 10; proposed_fixes/C16_normalize_base10.diff) satisfies the full statement
+   for every pair of digit strings with a non-zero denominator.  Which variant the tree has is
+   regenerated into Gen_Normalize.v (normalize_base) on every check. *)
+Theorem fraction_value_fixed : forall (neg : bool) (n d : str),
+  n <> [] -> d <> [] -> all_digits n = true -> all_digits d = true -> digits_val d <> 0%N ->
+  exists q, string_to_rational_b 10 (sign_str neg ++ n ++ slash :: d) = StrVal q /\
+            (q == signed neg (frac_value n d))%Q /\ Qred q = q.
+Proof. exact fraction_value_base10. Qed.
+Print Assumptions fraction_value_fixed.
+
+(* "accepts only well-formed literals" is false at the API:  "-" is an Int literal of undefined value,
+   ".5" and "1." are accepted (by mkConst resp. by stringToRational alone). *)
+Theorem accepts_only_wf_refuted :
+  mk_const LIA (S "-") = MInt (S "-") FRGarbage /\
+  mk_const LRA (S ".5") = MReal (S "1/2") (FRVal (1 # 2)) /\
+  string_to_rational (S "1.") = StrVal 1 /\ string_to_rational (S "") = StrVal 0.
+Proof. repeat split; vm_compute; reflexivity. Qed.
+Print Assumptions accepts_only_wf_refuted.
+
+(* ... and the classifier and the converter disagree: isRealString accepts what stringToRational
+   refuses with an exception that is not an ApiException. *)
+Theorem accepts_wf_gap_refuted :
+  is_real_string (S "1.5/2.5") = true /\ string_to_rational (S "1.5/2.5") = StrExc /\
+  mk_const LRA (S "1.5/2.5") = MStrConvExc.
+Proof. repeat split; vm_compute; reflexivity. Qed.
+Print Assumptions accepts_wf_gap_refuted.
+
+(* The derivative matcher used for the lexer rules decides the language of the expression. *)
+Theorem regex_matcher_correct : forall (r : re) (s : str), matches r s = true <-> lang r s.
+Proof. exact matches_iff. Qed.
+Print Assumptions regex_matcher_correct.
+
+(* Every text matched by the lexer's TK_NUM rule (as regenerated from smt2newlexer.ll) is "0", a signed
+   numeral without leading zero, or a fraction of two such, and is read exactly. *)
+Theorem lex_num_exact : forall s : str, matches re_TK_NUM s = true ->
+  exists q, string_to_rational s = StrVal q /\ num_token_value s q /\ Qred q = q.
+Proof. exact lex_num_exact_proof. Qed.
+Print Assumptions lex_num_exact.
+
+(* Every text matched by TK_DEC is (sign) digits . digits and is read exactly. *)
+Theorem lex_dec_exact : forall s : str, matches re_TK_DEC s = true ->
+  exists neg ip fp q, s = sign_str neg ++ ip ++ dot :: fp /\ ip <> [] /\ fp <> [] /\
+    string_to_rational s = StrVal q /\ (q == signed neg (dec_value ip fp))%Q /\ Qred q = q.
+Proof. exact lex_dec_exact_proof. Qed.
+Print Assumptions lex_dec_exact.
+
+(* But a digit string with leading zeros is not one token: it is silently split (DESIGN.md par.9 #10). *)
+Theorem lex_num_refuted :
+  lex lex_rules (S "007") = LexOk [(TK_NUM, S "0"); (TK_NUM, S "0"); (TK_NUM, S "7")] /\
+  lex lex_rules (S "010/3") = LexOk [(TK_NUM, S "0"); (TK_NUM, S "10/3")].
+Proof. split; vm_compute; reflexivity. Qed.
+Print Assumptions lex_num_refuted.
+
+(* Printing: the term text built for a constant of value q reads back, as an SMT-LIB term over
+   numerals, - and /, to exactly q — for every rational. *)
+Theorem print_parse_roundtrip : forall q : Q, read_num_term (term_print q) = Some q.
+Proof. exact print_parse_roundtrip_proof. Qed.
+Print Assumptions print_parse_roundtrip.
+
+(* Int constants keep their spelling as identity: equal values, different terms; with UF in the logic
+   mkEq folds them to false (DESIGN.md par.9 #12). *)
+Theorem int_const_identity_refuted :
+  mk_eq_int_consts false (S "007") (S "7") = Some true /\ mk_eq_int_consts true (S "007") (S "7") = Some false.
+Proof. split; vm_compute; reflexivity. Qed.
+Print Assumptions int_const_identity_refuted.
+
+(* non-vacuity *)
+Example decimal_nonvacuous :
+  string_to_rational (S "-000123.4500") = StrVal (-2469 # 20) /\ string_to_rational (S "0.050") = StrVal (1 # 20) /\
+  string_to_rational (S "12345678901234567890123.4500") = StrVal (246913578024691357802469 # 20).
+Proof. repeat split; vm_compute; reflexivity. Qed.
+Example fraction_nonvacuous : string_to_rational (S "-6/4") = StrVal (-3 # 2).
+Proof. vm_compute; reflexivity. Qed.
+Example lex_nonvacuous : matches re_TK_NUM (S "-12/5") = true /\ matches re_TK_DEC (S "00.500") = true /\
+  matches re_TK_NUM (S "007") = false /\ matches re_TK_NUM (S "1/02") = false.
+Proof. repeat split; vm_compute; reflexivity. Qed.
+Example print_nonvacuous : term_print (-3 # 4) = S "(/ (- 3) 4)" /\ term_print (-7 # 1) = S "(- 7)" /\
+  term_to_smt2 (S "1.50") = Printed (S "(/ 3 2)").
+Proof. repeat split; vm_compute; reflexivity. Qed.
